@@ -5,10 +5,14 @@
 //                                                                      performed if the last call returned BLOCK_NOT_READY)
 // output:  <id> <trace op1>|<trace op2>|... # <reference traces> # leak=<0|1>
 #include "scan_common.h"
+#include <signal.h>
+// a case that does not finish is reported with its id instead of stalling the whole run
+static char vf_current[128];
+static void vf_alarm(int sig) { (void) sig; fprintf(stderr, "CASE-HANGS %s (no result after 300 s)\n", vf_current); _exit(97); }
 
 #define MAXOPS 24
 
-typedef struct { char kind; int in; char sched[64]; char cb[16]; char stk[16]; int nofs; } OP;
+typedef struct { char kind; int in; char sched[64]; char cb[16]; char stk[16]; int nofs; int flags; char pk; } OP;
 
 static int parse_ops(const char* f, OP* ops)
 {
@@ -28,6 +32,13 @@ static int parse_ops(const char* f, OP* ops)
       snprintf(ops[i].stk, sizeof ops[i].stk, "%s", p[4]);
       ops[i].nofs = np > 5 ? atoi(p[5]) : 0;
     }
+    else if (ops[i].kind == 'F') { if (np < 2) DIE("bad op"); ops[i].flags = atoi(p[1]); }
+    else if (ops[i].kind == 'P')
+    {
+      if (np < 3) DIE("bad op");
+      ops[i].pk = p[1][0];
+      snprintf(ops[i].cb, sizeof ops[i].cb, "%s", p[2]);
+    }
   }
   free(s);
   return n;
@@ -44,6 +55,49 @@ static YR_SCANNER* mk_scanner(YR_RULES* rules, int flags, int timeout, RUN* r)
   yr_scanner_set_callback(sc, vf_scan_cb, &r->t);
   r->t.rules = rules;
   return sc;
+}
+
+// a small process to scan with yr_scanner_scan_proc: one per harness process, dies with it
+#include <sys/prctl.h>
+#include <signal.h>
+#include <sys/wait.h>
+static pid_t vf_child = 0;
+static void kill_child(void) { if (vf_child > 0) { kill(vf_child, SIGKILL); waitpid(vf_child, NULL, 0); vf_child = 0; } }
+static pid_t get_child(void)
+{
+  if (vf_child > 0) return vf_child;
+  fflush(stdout);
+  vf_child = fork();
+  if (vf_child == 0)
+  {
+    prctl(PR_SET_PDEATHSIG, SIGKILL);
+    int nul = open("/dev/null", O_RDWR); dup2(nul, 0); dup2(nul, 1); dup2(nul, 2);
+    execlp("sleep", "sleep", "100000", (char*) NULL);
+    _exit(127);
+  }
+  atexit(kill_child);
+  // wait until the child has become `sleep` (before the exec it is a copy of this sanitized process, terabytes of shadow mappings)
+  for (int i = 0; i < 2000; i++)
+  {
+    char p[64], cmd[32] = {0};
+    snprintf(p, sizeof p, "/proc/%d/cmdline", (int) vf_child);
+    FILE* f = fopen(p, "r");
+    if (f) { size_t n = fread(cmd, 1, sizeof cmd - 1, f); fclose(f); if (n >= 5 && !strncmp(cmd, "sleep", 5)) break; }
+    usleep(5000);
+  }
+  return vf_child;
+}
+
+// yr_scanner_scan_proc: what the process memory contains is not known to the model, only the kind of outcome is printed
+static int do_proc(YR_SCANNER* sc, RUN* r, OP* op)
+{
+  cb_script(&r->t, op->cb);
+  set_stack("-");
+  tr_reset(&r->t);
+  int rc = yr_scanner_scan_proc(sc, op->pk == 'x' ? 0x3ffffff0 : (int) get_child());
+  tr_reset(&r->t);
+  tr_add(&r->t, "%s", rc == ERROR_COULD_NOT_ATTACH_TO_PROCESS ? "P:NOATTACH" : "P:DONE");
+  return rc;
 }
 
 static int do_call(YR_SCANNER* sc, RUN* r, OP* op, INPUT* ins, int is_start)
@@ -73,6 +127,8 @@ static int describe(void)
     YR_RULES* rules = get_rules(field(toks, n, "rs"));
     printf("%s nrules=%u nstrings=%u noreq=", toks[0], rules->num_rules, rules->num_strings);
     for (uint32_t i = 0; i < rules->num_rules; i++) putchar(yr_bitmask_is_set(rules->no_required_strings, i) ? '1' : '0');
+    printf(" single=");
+    for (uint32_t i = 0; i < rules->num_strings; i++) putchar(STRING_IS_SINGLE_MATCH(&rules->strings_table[i]) ? '1' : '0');
     printf(" fixed=");
     for (uint32_t i = 0; i < rules->num_strings; i++)
     {
@@ -98,6 +154,8 @@ int main(int argc, char** argv)
   {
     int n = split(line, toks, 64);
     if (n < 1) continue;
+    snprintf(vf_current, sizeof vf_current, "%s", toks[0]);
+    signal(SIGALRM, vf_alarm); alarm(300);
     const char* rs = field(toks, n, "rs"); const char* inf = field(toks, n, "in"); const char* opf = field(toks, n, "ops");
     if (!rs || !inf || !opf) DIE("missing field in case %s", toks[0]);
     int flags = atoi(field(toks, n, "fl") ? field(toks, n, "fl") : "0");
@@ -110,6 +168,23 @@ int main(int argc, char** argv)
     int last_start = -1, last_rc = ERROR_SUCCESS;
     for (int k = 0; k < nops; k++)
     {
+      if (ops[k].kind == 'F')
+      {
+        flags = ops[k].flags;
+        yr_scanner_set_flags(sc, flags);
+        main_tr[k] = strdup("set"); ref_tr[k] = strdup("set");
+        continue;
+      }
+      if (ops[k].kind == 'P')
+      {
+        last_rc = do_proc(sc, &mainr, &ops[k]);
+        main_tr[k] = strdup(mainr.t.buf);
+        YR_SCANNER* scp = mk_scanner(rules, flags, timeout, &refr);
+        do_proc(scp, &refr, &ops[k]);
+        ref_tr[k] = strdup(refr.t.buf);
+        yr_scanner_destroy(scp);
+        continue;
+      }
       if (ops[k].kind == 'S') last_start = k;
       if (last_start < 0 || (ops[k].kind == 'C' && last_rc != ERROR_BLOCK_NOT_READY))
       {
@@ -122,7 +197,7 @@ int main(int argc, char** argv)
       YR_SCANNER* sc2 = mk_scanner(rules, flags, timeout, &refr);
       for (int j = last_start; j <= k; j++)
       {
-        if (j > last_start && ops[j].kind != 'C') DIE("internal");
+        if (j > last_start && ops[j].kind != 'C') continue;
         do_call(sc2, &refr, &ops[last_start], ins, j == last_start);
       }
       ref_tr[k] = strdup(refr.t.buf);
